@@ -60,6 +60,15 @@ def verification_closure(prog):
 
 
 def run(prog, chk):
+    from .clone_common import clone_field_coverage
+    chk.rule("C11.clone", "hand-written clone functions give every field of the object to the clone", floor=4)
+    if clone_field_coverage(prog, chk, "C11.clone", ["KSI_PublicationRecord_clone", "KSI_Config_clone", "KSI_AggregationReq_clone", "KSI_ExtendReq_clone",
+                                                    "KSI_Policy_clone", "KSI_DataHash_clone", "KSI_TLV_clone"]) < 4:
+        raise AnalysisBroken("C11.clone: fewer than 4 field-by-field clone functions recognised")
+    _run(prog, chk)
+
+
+def _run(prog, chk):
     chk.explanation = (
         "(R9) KSI_Signature_serialize serialises the retained TLV tree when there is one, KSI_Signature_clone re-extracts from it and "
         "extractSignature retains a copy of the parsed tree. (R8) from KSI_SignatureVerifier_verify and every rule function of the "
